@@ -32,7 +32,7 @@ def run(chk):
         if run_ is None:
             continue
         stats[profile] = {k: v for k, v in run_["stat"].items() if k != "t"}
-        chk.notes.extend(run_["notes"][:20])
+        chk.notes.extend(n for n in sorted(set(run_["notes"]))[:8] if n not in chk.notes)
         total_cases += len(run_["cases"])
         for c in run_["cases"]:
             ops = c["m"].split(" ")[5] if len(c["m"].split(" ")) > 5 else ""
